@@ -10,7 +10,7 @@ func VerifDecodeLength(data []byte) (uint64, int, error) {
 	d := NewDecoder()
 	r := bytes.NewReader(data)
 	d.buf = r
-	v, err := d.DecodeLength()
+	v, err := d.DecodeInteger()
 	if err != nil {
 		return 0, 0, err
 	}
